@@ -34,6 +34,22 @@ if os.path.exists(rf):
         m = re.search(r'obligation="([^"]*)"', v)
         u = (x.get('undecided') or [''])[0][:140]
         out.append('| %s | %s | %s | %s | %s |' % (x['seed'], notes.replace('|', '/'), x['prop'], x['outcome'], ((m.group(1) if m else u)[:140]).replace('|', '/')))
+bf = os.path.join(ROOT, 'benign', 'RESULTS.json')
+if os.path.exists(bf):
+    b = json.load(open(bf))
+    out.append('\n### 10.5 Behaviour-preserving refactorings (false-alarm test, `benign/<k>`, `tools/run_benign.py`)\n')
+    out.append('Expected: exit 0 (still proved) or exit 2 (undecided), never exit 1.\n')
+    out.append('| change | what it is (from its notes) | property checked | exit | remark |\n|---|---|---|---|---|')
+    for key in sorted(b, key=lambda t: (b[t]['change'], b[t]['prop'])):
+        x = b[key]
+        notes = ''
+        try:
+            ls = open(os.path.join(ROOT, 'benign', str(x['change']), 'notes.txt')).read().strip().split('\n')
+            notes = '; '.join(l.strip() for l in ls[:3])[:200]
+        except OSError:
+            pass
+        rem = ((x.get('violations') or x.get('undecided') or [''])[0])[:150]
+        out.append('| %s | %s | %s | %s | %s |' % (x['change'], notes.replace('|', '/'), x['prop'], x['exit'], rem.replace('|', '/')))
 txt = '\n'.join(out) + '\n'
 p = os.path.join(ROOT, 'DESIGN.md')
 s = open(p).read()
